@@ -53,6 +53,19 @@ def gen_dir(rng, scratch: str):
                 data, lines = gen_sidecar(rng)
                 t.file(("d/%s/%s" % (n, ext)) if it["kind"] == "dir" else "d/" + n + ext, data)
                 it["ea"][block] = lines
+    # link-file and .cap entries that give some items an Abstract=: in the directory's listing that abstract
+    # replaces the item's own, and nothing else of the item's attributes changes
+    names_blocks = []
+    for k, (n, it) in enumerate(items.items()):
+        r = rng.random()
+        if r < 0.2:
+            names_blocks.append("Path=./%s\nAbstract=Abstract from the names file %d\n" % (n, k))
+            it["dir_abstract"] = ["Abstract from the names file %d" % k]
+        elif r < 0.35:
+            t.file(b"d/.cap/" + n.encode("utf-8", "surrogateescape"), "Abstract=Abstract from the cap file %d\n" % k)
+            it["dir_abstract"] = ["Abstract from the cap file %d" % k]
+    if names_blocks:
+        t.file("d/.names", "\n".join(names_blocks).encode("utf-8", "surrogateescape"))
     if rng.random() < 0.5:
         t.file("d/box.mbox", trees.make_mbox(["First subject", "Second subject"], scratch))
         items["box.mbox"] = {"kind": "mbox", "ea": {}}
@@ -149,6 +162,9 @@ def run_case(chk: Check, sc: Scratch, idx: int) -> None:
                 d = parsers.parse_gopher_line(blocks[0][1][0])
                 nm = d["selector"].rsplit(b"/", 1)[-1].decode("utf-8", "surrogateescape") if d["type"] != "i" else None
                 it = items.get(nm) if nm else None
+                if it is not None and "dir_abstract" in it:
+                    it = dict(it, ea=dict(it["ea"], ABSTRACT=it["dir_abstract"]))
+                    chk.count("items_with_abstract_from_link_file")
                 if not check_item_blocks(chk, nm or "(info)", it, blocks, sample):
                     return
                 if nm in items:
@@ -166,7 +182,13 @@ def run_case(chk: Check, sc: Scratch, idx: int) -> None:
                 chk.witness("C15/item-info-unparsable", {"item": nm, "reply": r.data[:300], "reason": v.reason})
                 return
             one = v.parsed["items"][0]
-            if validate.normalize_ts(repr(one).encode()) != validate.normalize_ts(repr(blocks).encode()):
+            if "dir_abstract" in items[nm]:
+                # the directory shows the link file's abstract, the item itself its own: compare everything else
+                strip = lambda bl: [b for b in bl if b[0] != "ABSTRACT"]
+                same = validate.normalize_ts(repr(strip(one)).encode()) == validate.normalize_ts(repr(strip(blocks)).encode())
+            else:
+                same = validate.normalize_ts(repr(one).encode()) == validate.normalize_ts(repr(blocks).encode())
+            if not same:
                 chk.witness("C15/item-info-differs-from-directory-info", {"item": nm, "item_info": one, "in_directory": blocks})
                 return
             if not check_item_blocks(chk, nm, items[nm], one, {"view": "gopherp!", "reply": r.data[:300]}):
@@ -185,6 +207,35 @@ def run_case(chk: Check, sc: Scratch, idx: int) -> None:
                 if d["length"] not in (len(it["data"]), -2) or d["body"] != it["data"]:
                     chk.witness("C15/document-length-prefix", {"item": nm, "size": it["size"], "length": d["length"], "body": len(d["body"])})
                     return
+                # the + form naming a view, with and without a language, two- and three-field
+                sel_b = b"/d/" + nm.encode("utf-8", "surrogateescape")
+                mime = it["mime"].encode()
+                for tail in (b"\t+" + mime, b"\t+" + mime + b" En_US", b"\t+" + mime + b" De_DE", b"\t\t+" + mime + b" En_US"):
+                    if reqs.gopher_ambiguous(sel_b):
+                        break
+                    rq = sel_b + tail + b"\r\n"
+                    r = site.request(rq)
+                    chk.count("view_requests")
+                    try:
+                        d = parsers.parse_gopherplus(r.data)
+                        ok = d["length"] in (len(it["data"]), -2) and d["body"] == it["data"]
+                    except parsers.Malformed:
+                        ok = False
+                    if not ok or r.protocol != "GopherPlusProtocol":
+                        chk.witness("C15/view-request-not-answered-as-gopherplus", {"request": rq, "reply": r.data[:120], "protocol": r.protocol})
+                        return
+        for tail in (b"\t+application/gopher+-menu", b"\t+application/gopher+-menu En_US", b"\t$+INFO"):
+            rq = b"/d" + tail + b"\r\n"
+            r = site.request(rq)
+            chk.count("view_requests")
+            try:
+                d = parsers.parse_gopherplus(r.data)
+                ok = d["length"] == -2 or d["length"] == len(d["body"])
+            except parsers.Malformed:
+                ok = False
+            if not ok or r.protocol != "GopherPlusProtocol":
+                chk.witness("C15/view-request-not-answered-as-gopherplus", {"request": rq, "reply": r.data[:120], "protocol": r.protocol})
+                return
         if "box.mbox" in items:
             req, _ = reqs.render("gopherp$", b"/d/box.mbox")
             r = site.request(req)
